@@ -1012,13 +1012,15 @@ impl CodegenContext {
                             )?;
                         }
 
+                        let first_offset = s.source_map.offsets().len();
                         s.emit_tokens(&def.block)?;
 
                         if s.options.move_macro_source_map_to_invocation {
-                            // Move all source map offsets that refer to the macro definition's span to the macro invocation's span
-                            // to make sure that the emitted bytes show up at the invocation site when generating a listing file
+                            // Move all source map offsets that were emitted by the macro's body (also those in nested scopes)
+                            // to the macro invocation's span to make sure that the emitted bytes show up at the invocation
+                            // site when generating a listing file
                             s.source_map
-                                .move_offsets(s.current_scope_nx, parent_scope, name.span);
+                                .move_offsets(first_offset, parent_scope, name.span);
                         }
 
                         Ok(())
